@@ -220,6 +220,22 @@ def energy_longrun(ctx, n_cases):
                 z = Sm(z, dt)
             ctx.check(np.abs(z[:6] - S[50]).max() <= 1e-9, "5:integrate() is the composition of one-step maps", {"err": np.abs(z[:6] - S[50]).max()})
             ctx.check(np.array_equal(S[0], y0) and np.array_equal(np.asarray(sol.times), t), "5:first sample is y0, times as requested", {})
+            # the same on grids whose node spacing changes (alternating and graded): one step per node interval, coupling constant from
+            # that interval, ONE extended state carried through the whole call (lifted from y0 once) — what makes each step undoable
+            for gname, tg in (("alternating", np.concatenate([[0.0], np.cumsum(np.tile([0.6 * dt, 1.4 * dt], 30))])),
+                              ("graded", 0.8 * np.linspace(0.0, 1.0, 61) ** float(rng.uniform(1.3, 2.0)))):
+                soln = integ.integrate(hs, y0, tg.copy())
+                Sn = np.asarray(soln.states)
+                z = np.concatenate([y0, y0])
+                worst = 0.0
+                for k_ in range(len(tg) - 1):
+                    hk = float(tg[k_ + 1] - tg[k_])
+                    z = step_map(hs, order, _get_tao_omega(hk, order, integ.c_omega_heuristic))(z, hk)
+                    worst = max(worst, float(np.abs(z[:6] - Sn[k_ + 1]).max()))
+                ctx.case(f"composition:{gname}:order{order}", [it, ctx.seed, kind, gname], nontrivial=True)
+                ctx.stat(f"composition_defect[{gname}]", worst)
+                ctx.check(worst <= 1e-9, "5:integrate() on a grid with changing node spacing is the composition of one-step maps of one extended state",
+                          {"order": order, "kind": kind, "grid": gname, "err": worst, "y0": y0, "grid_head": tg[:5]})
 
 
 def run(ctx):
